@@ -232,6 +232,10 @@ def check_case(case):
 def run(ctx):
     from contracts import c_params as cp
     ctx.verify(cp.engine(), cp.VERIFY, min_obligations={cp.VERIFY[0].key: 21})
+    ctx.verify(cp.prefixed_engine(), cp.VERIFY_PREFIXED, min_obligations={cp.VERIFY_PREFIXED[0].key: 6})
+    ctx.assumptions.append("export_prefixed: the mantissa is modelled as an exact rational (finite Decimal); "
+                           "str(Decimal) is abstracted as a function of the value (its exponent form is decided by the "
+                           "bounded family, which compares exported values as Fractions)")
     ctx.run_bounded("parameter-values", cases(ctx.tier, ctx.seed), check_case,
                     rule="an external module (dict parameters, with a None-valued parameter in between) and the ideal "
                          "primitives R C L Vdc Vpulse Isrc Vcvs Vccs Cccs Ccvs given each value of a set: ints to +-2^63, "
